@@ -42,7 +42,8 @@ type Case struct {
 	PadDelta   int    `json:"padDelta,omitempty"` // document length relative to MaxMeta (when MaxMeta > 0)
 	FailAt     int    `json:"failAt,omitempty"`   // callback fails at this (1-based) invocation; 0 = never
 	PlainHTTP  bool   `json:"plainHTTP,omitempty"`
-	View       string `json:"view,omitempty"` // oci-tags: live, fs, tar
+	View       string `json:"view,omitempty"`    // oci-tags: live, fs, tar
+	Chunked    bool   `json:"chunked,omitempty"` // listing documents without Content-Length
 }
 
 var errCallback = errors.New("verif: callback failure")
@@ -60,6 +61,7 @@ func genCase(t *rapid.T) Case {
 	c.LinkStyle = rapid.IntRange(0, 4).Draw(t, "linkStyle")
 	c.EmptyLast = rapid.IntRange(0, 4).Draw(t, "emptyLast") == 0
 	c.PlainHTTP = rapid.Bool().Draw(t, "plainHTTP")
+	c.Chunked = rapid.IntRange(0, 2).Draw(t, "chunked") == 0
 	if c.Kind == "referrers" {
 		c.FilterReq = rapid.Bool().Draw(t, "filterReq")
 		c.FilterMode = rapid.IntRange(0, 2).Draw(t, "filterMode")
@@ -106,7 +108,7 @@ func runCase(c Case) (res vt.Result, fail *vt.Fail) {
 	if c.Kind == "oci-tags" {
 		return runOCITags(ctx, c, items, last, res)
 	}
-	reg := regmodel.New(host, regmodel.Profile{ReferrersAPI: true, PageCap: c.PageCap, LinkStyle: c.LinkStyle, EmptyLastPage: c.EmptyLast, FilterMode: c.FilterMode})
+	reg := regmodel.New(host, regmodel.Profile{ReferrersAPI: true, PageCap: c.PageCap, LinkStyle: c.LinkStyle, EmptyLastPage: c.EmptyLast, FilterMode: c.FilterMode, ChunkedLists: c.Chunked})
 	if c.PlainHTTP {
 		reg.Scheme = "http"
 	}
@@ -213,7 +215,7 @@ func runCase(c Case) (res vt.Result, fail *vt.Fail) {
 		if *rec.BodyRead > limit {
 			return res, vt.Failf("C15/metadata-over-read", "%s %s: %d bytes of the response were read, MaxMetadataBytes is %d", rec.Method, rec.URL, *rec.BodyRead, limit)
 		}
-		if rec.RespLen > limit {
+		if rec.BodyLen > limit {
 			overLimit = true
 		}
 	}
